@@ -69,7 +69,7 @@ def Conf (cfg : Cfg) : Expr → Bool
     Conf cfg f && ConfElts cfg args && ConfKws cfg kws &&
     kwDistinct kws &&                                   -- a repeated explicit keyword is a SyntaxError in CPython
     (cfg.callArgsFirst || args.all Elt.isConst || kws.all Kw.isConst) &&
-    (cfg.dupKwCheck || kws.all Kw.isNamed)
+    ((cfg.dupKwCheck && cfg.kwGroupMerge) || kws.all Kw.isNamed)
   | .seq _ es => ConfElts cfg es
   | .dict kvs => ConfPairs cfg kvs
   | .fstr parts => ConfParts cfg parts
